@@ -1,4 +1,4 @@
-From TLXV Require Import C12.CPtr C12.Conc.
+From TLXV Require Import C12.CPtr C12.Conc C12.Nested.
 Require Extraction. Require ExtrOcamlBasic.
 Extraction Language OCaml.
-Extraction "../ocaml/gen/C12_model.ml" CPtr.run_case Conc.validate.
+Extraction "../ocaml/gen/C12_model.ml" CPtr.run_case Conc.validate Nested.nrun_case.
